@@ -31,7 +31,7 @@ def levels_class(lv):
             kinds.add("append" if op["a"] else "overwrite")
         if lv[n]["rm"]:
             kinds.add("remove")
-    return "+".join(used) + "/" + "+".join(sorted(kinds))
+    return "levels=" + "+".join(used)
 
 
 def act_signature(e, kind):
@@ -56,9 +56,11 @@ def act_signature(e, kind):
     return "C17:%s:%s" % (ev, kind)
 
 
-def retry_signature(runev, kind):
+def retry_signature(runev, kind, rt=None):
     pol = (runev or {}).get("pol", {})
     cls = "retry_on=%s:codes=%s:num_retries=%s" % (str(pol.get("on")).lower(), "listed" if pol.get("codes") else "none", pol.get("n"))
+    if kind == "no-reply":      # the policy matters less than how far the request got
+        return "C17:retry:no-reply:after-%d-attempts" % sum(1 for e in (rt or []) if e["ev"] == "att")
     return "C17:retry:%s:%s" % (kind, cls)
 
 
@@ -200,7 +202,7 @@ def run(ctx):
         end = next((j for j in range(gi, len(retry_evs)) if retry_evs[j]["ev"] == "fin"), gi)
         if kind == "trace-rejected":
             kind = "trace-rejected:" + e["ev"]
-        vlib.report_failure(ctx, retry_signature(runev, kind), dict(kind=kind, event=e, run_trace=retry_evs[st:end + 1]))
+        vlib.report_failure(ctx, retry_signature(runev, kind, retry_evs[st:end + 1]), dict(kind=kind, event=e, run_trace=retry_evs[st:end + 1]))
 
     # ---------- coverage
     nact = sum(1 for e in act_evs if e["ev"] != "rx")
